@@ -631,7 +631,10 @@ def finish(rep, level_rule, assumptions, outside):
         if len(samples) >= 6:
             break
         if e.get("status") == "pass":
+            cd = next((c for c in rep.corpus if c.get("decl") == e.get("decl")), {})
             samples.append({"obligation": hid, "declaration": e.get("decl"), "bundle": e.get("bundle"),
+                            "repr": cd.get("repr"), "discriminants": cd.get("discriminants"),
+                            "declaration_order": cd.get("declaration_order"),
                             "symbolic": e.get("symbolic"), "unwind": e.get("unwind"),
                             "checks": e.get("checks"), "time_s": e.get("time_s")})
     if not samples:
